@@ -2,6 +2,7 @@
   C19 — Declarations are read faithfully or rejected at setup.
 -/
 import GoFlags.Scan
+import GoFlags.Lemmas.TagScan
 
 namespace GoFlags.C19
 open GoFlags Bytes
@@ -147,5 +148,25 @@ theorem scan_tag_total (tag : Bytes) : (∃ kvs, scanTag tag = .ok kvs) ∨ (∃
   cases h : scanTag tag with
   | ok kvs => exact Or.inl ⟨kvs, rfl⟩
   | error e => exact Or.inr ⟨e, rfl⟩
+
+/-! ### The scanner reads back what a declaration says -/
+
+/-- the scanner reads a value written with `strconv.Quote` up to its closing quote, whatever the
+    value (quotes, backslashes, control characters, invalid UTF-8) and whatever follows -/
+theorem scanner_reads_a_quoted_value (E : Env) (v rest : Bytes) :
+    scanVal (quoteBody E v ++ 0x22 :: rest) = .ok (quoteBody E v) rest := scanVal_quoteBody E v rest
+
+/-- **Declarations are read faithfully**: for every list of keys (not empty, without blank, colon or
+    quote) and ARBITRARY byte-string values, scanning the conventional rendering
+    `key:"quoted value" key:"…"` of a struct tag yields exactly those pairs, in order — so
+    `Get` / `GetMany`, and with them every attribute of the public model, see exactly what was
+    declared. -/
+theorem scan_reads_back_the_declared_pairs (E : Env) (kvs : List (Bytes × Bytes)) (hk : ∀ p ∈ kvs, TagKeyOK p.1)
+    (hb : ∀ p ∈ kvs, ∀ b ∈ p.2, b < 256) : scanTag (renderTag E kvs) = .ok kvs :=
+  scanTag_reads_back E kvs hk hb
+
+/-- non-vacuity: the tag `long:"name" description:"say \"hi\""` -/
+example : TagKeyOK (B "long") ∧ TagKeyOK (B "description") := by
+  constructor <;> exact ⟨by decide, by decide⟩
 
 end GoFlags.C19
